@@ -30,6 +30,9 @@ import (
 type Env struct {
 	W                               *memstore.World
 	Meta, Blob, VMeta, Wal, ReadLog *memstore.Store
+	// BlobOverride, when set, is the blob store handed to datamon instead of Blob (e.g. a sparsestore for very large
+	// files); it is not cloned and sees no actor
+	BlobOverride storage.Store
 }
 
 // NewEnv creates the five stores of a context.
@@ -48,6 +51,9 @@ func (e *Env) Clone() *Env { return FromWorld(e.W.Clone()) }
 
 // Stores returns the actor's view of the context.
 func (e *Env) Stores(a *memstore.Actor) context2.Stores {
+	if e.BlobOverride != nil {
+		return context2.NewStores(e.Wal.For(a), e.ReadLog.For(a), e.BlobOverride, e.Meta.For(a), e.VMeta.For(a))
+	}
 	return context2.NewStores(e.Wal.For(a), e.ReadLog.For(a), e.Blob.For(a), e.Meta.For(a), e.VMeta.For(a))
 }
 
